@@ -289,8 +289,21 @@ func (c *Ctx) lockAnalysisFor(name string, roots []*ssa.Function) *lockAnalysis 
 	la := &lockAnalysis{li: c.locks(), res: map[fnCtx]*ctxResult{}, ctxsOf: map[*ssa.Function][]fnCtx{}, roots: roots}
 	c.cache[key] = la
 	var work []fnCtx
-	enqueue := func(fc fnCtx) {
-		if fc.fn == nil || fc.fn.Blocks == nil || !InLib(fc.fn) {
+	var enqueue func(fc fnCtx)
+	enqueue = func(fc fnCtx) {
+		if fc.fn == nil {
+			return
+		}
+		if !InLib(fc.fn) {
+			// a callee outside the library: the library functions it may call back into
+			// (io.Copy → Read of a library reader, mpegts.Reader.Read → registered callbacks)
+			// run with the caller's lockset
+			for _, g := range c.libEntriesVia(fc.fn) {
+				enqueue(fnCtx{fn: g, must: fc.must, may: fc.may})
+			}
+			return
+		}
+		if fc.fn.Blocks == nil {
 			return
 		}
 		if _, ok := la.res[fc]; ok {
@@ -520,3 +533,48 @@ func (c *Ctx) roleLockAnalysis(name string, roots []*ssa.Function) *lockAnalysis
 
 var _ = fmt.Sprintf
 var _ = token.NoPos
+
+// libEntriesVia returns the library functions reachable from the non-library function g through
+// non-library code only (the first library functions met on each path).
+func (c *Ctx) libEntriesVia(g *ssa.Function) []*ssa.Function {
+	var memo map[*ssa.Function][]*ssa.Function
+	if v, ok := c.cache["libentries"]; ok {
+		memo = v.(map[*ssa.Function][]*ssa.Function)
+	} else {
+		memo = map[*ssa.Function][]*ssa.Function{}
+		c.cache["libentries"] = memo
+	}
+	if r, ok := memo[g]; ok {
+		return r
+	}
+	seen := map[*ssa.Function]bool{g: true}
+	work := []*ssa.Function{g}
+	found := map[*ssa.Function]bool{}
+	for len(work) > 0 {
+		f := work[len(work)-1]
+		work = work[:len(work)-1]
+		n := c.CG.Nodes[f]
+		if n == nil {
+			continue
+		}
+		for _, e := range n.Out {
+			h := e.Callee.Func
+			if seen[h] {
+				continue
+			}
+			seen[h] = true
+			if InLib(h) {
+				found[h] = true
+				continue
+			}
+			work = append(work, h)
+		}
+	}
+	var out []*ssa.Function
+	for f := range found {
+		out = append(out, f)
+	}
+	sort.Slice(out, func(i, j int) bool { return out[i].String() < out[j].String() })
+	memo[g] = out
+	return out
+}
